@@ -55,7 +55,12 @@ RESULT_SHAPES = ["void", "int", "int *", "const char *", "std::string", "const s
 TMPL_HEADERS = ["", "template<>", "template<typename T>", "template<class T>", "template<typename T, typename U>", "template<int N>"]
 TMPL_BODIES = ["void f()", "void f(T a)", "T f(U a)", "T *f(int n)", "class C", "class Class1", "int v", "T v", "namespace inner", "typedef int ty",
                "struct S { T a; }", "void f(Class1<T> *p)", "void f(std::vector<T> &a)"]
-TMPL_INSTANCES = [None, ["<int>"], ["<int>", "<double>"], ["<int,double>"], ["<>"], ["int"], ["<nosuchtype>"], ["<int"], []]
+TMPL_INSTANCES = [None, ["<int>"], ["<int>", "<double>"], ["<int,double>"], ["<>"], ["int"], ["<nosuchtype>"], ["<int"], [],
+                  ["<int> garbage"], ["<int>>"], ["<int> <double>"], ["<int,double> x"]]
+
+
+# text after the closing parenthesis of a fortran_generic entry's parameter list
+GENERIC_TAILS = ["", " junk", " )"]
 
 
 def attr_text(pair):
@@ -130,7 +135,10 @@ class AttrHarness(object):
         elif self.kind == "generic":
             # the attributes sit on an argument of a fortran_generic entry (its own parameter list), not on the declaration
             self.decl = "void f(double *p, int n, int *q)"
-            self.entry = {"decl": self.decl, "fortran_generic": [{"decl": "(float *p, int n%s, int *q)" % at},
+            tv = z3.Int("generic_tail")
+            e.assume(z3.And(tv >= 0, tv < len(GENERIC_TAILS)))
+            self.tail = GENERIC_TAILS[e.choose(tv)]
+            self.entry = {"decl": self.decl, "fortran_generic": [{"decl": "(float *p, int n%s, int *q)%s" % (at, self.tail)},
                                                                  {"decl": "(double *p, int n, int *q)"}]}
             generate_only(base_library([copy.deepcopy(self.entry)]))
             return "accepted"
@@ -191,6 +199,21 @@ class AttrHarness(object):
                                               {"exc": type(value).__name__, "site": list(site) if site else None, "via": via}),
                     "vkey": key}
         why = documented_misuse(self.kind, self.shape, self.picks)
+        if not why and self.kind == "generic" and getattr(self, "tail", "").strip():
+            why = "the fortran_generic entry has text (%r) after its parameter list" % self.tail.strip()
+        if not why and self.kind == "tmpl" and (self.decl or "").startswith("template"):
+            # (on a declaration without a template header the list is not read at all)
+            for txt in [d["instantiation"] for d in (getattr(self, "entry", None) or {}).get("cxx_template", [])]:
+                # a template argument list is '<' arguments '>' and nothing else (decided on the characters)
+                s_ = txt.strip()
+                depth, end = 0, None
+                for i_, ch in enumerate(s_):
+                    depth += (ch == "<") - (ch == ">")
+                    if depth == 0:
+                        end = i_
+                        break
+                if s_.startswith("<") and end is not None and s_[end + 1:].strip():
+                    why = "the instantiation %r has text after its template argument list" % txt
         if why:
             return {"cls": cls + "/accepted-misuse", "violation": self.witness("silently accepted although %s" % why, {"misuse": why}),
                     "vkey": "attrs/accepted:" + why[:50]}
